@@ -17,7 +17,7 @@ SUB = {'s': {'x': {'_default': 0, '_emit': True},
 
 KINDS = ['add', 'delete', 'generate', 'divide', 'divide_copy', 'move_out',
          'move_in', 'generate_same', 'add_touch', 'generate_over',
-         'generate_into']
+         'generate_into', 'regen_same_instant']
 
 
 def is_live(obj):
@@ -47,13 +47,20 @@ class Grow(Process):
     """pure: adds d to s.x every ts"""
 
     def ports_schema(self):
-        return copy.deepcopy(SUB)
+        sub = copy.deepcopy(SUB)
+        if self.parameters.get('wide'):
+            # declares one variable more than the process it replaces
+            sub['s']['w'] = {'_default': 6}
+        return sub
 
     def calculate_timestep(self, states):
         return self.parameters['ts']
 
     def next_update(self, timestep, states):
         LOG.append(('proc', id(self), now(), timestep, is_live(self)))
+        hook = CTX.get('agent_states_hook')
+        if hook is not None:
+            hook(self, states)
         return {'s': {'x': self.parameters['d']}}
 
 
@@ -130,6 +137,30 @@ class Actor(Process):
         LOG.append(('issue', CTX['issued'][-1] if op else None, now(),
                     timestep))
         return op
+
+
+class Twin(Process):
+    """A second issuer on the actor's timestep, listed right after it: when
+    the actor deletes a compartment it generates a new one under the same key
+    in the same batch (two updates of one instant)."""
+
+    def ports_schema(self):
+        return {'loc1': {'*': copy.deepcopy(SUB)}}
+
+    def calculate_timestep(self, states):
+        return self.parameters['ts']
+
+    def next_update(self, timestep, states):
+        job = CTX.pop('twin_generate', None)
+        if job is None:
+            return {}
+        key, a = job
+        CTX['issued'].append(('generate', key, a))
+        CTX['has_proc'].add(key)
+        LOG.append(('issue', CTX['issued'][-1], now(), timestep))
+        return {'loc1': {'_generate': [dict(
+            key=key, processes=a['processes'], steps=a['steps'],
+            flow=a['flow'], topology=a['topology'], initial_state={})]}}
 
 
 class StepActor(Step):
@@ -232,6 +263,14 @@ def make_ops(ctx, kinds, ts_g, d, flavor, fresh_values=None):
                 if l2:
                     upd['loc2'] = {l2[0]: {'s': {'x': 1}}}
                 return upd
+            if label == 'regen_same_instant':
+                c = [k for k in l1 if k in CTX['has_proc']]
+                if not c or 'twin' not in CTX:
+                    return {}
+                CTX['issued'].append(('delete', c[0]))
+                CTX['has_proc'].discard(c[0])
+                CTX['twin_generate'] = (c[0], agent(ts_g, d, flavor))
+                return {'loc1': {'_delete': [c[0]]}}
             if label == 'delete':
                 if not l1:
                     return {}
@@ -265,6 +304,7 @@ def make_ops(ctx, kinds, ts_g, d, flavor, fresh_values=None):
                     if not c:
                         return {}
                     key = c[0]
+                    a['processes']['grow'].parameters['wide'] = True
                     CTX.setdefault('replaced_ids', set()).update(
                         i for i, (p, o) in live_objects(
                             CTX['engine'].state).items()
@@ -344,6 +384,10 @@ def build(ctx, kinds, flavor, ts_a, ts_g, d, emitter='null', parallel=None,
                                   initial_state, extra_processes,
                                   extra_topology, extra_steps, extra_flow)
     actor = Actor({'ts': ts_a, 'ops': ops})
+    twin = None
+    if KINDS.index('regen_same_instant') in kinds:
+        twin = Twin({'ts': ts_a})
+        CTX['twin'] = twin
     if actor_last:
         # listed after the agents: in a batch the agents' updates are applied
         # before the actor's structural update
@@ -354,6 +398,15 @@ def build(ctx, kinds, flavor, ts_a, ts_g, d, emitter='null', parallel=None,
     flow = {'loc1': {'a1': a['flow']}} if a['flow'] else {}
     topology = {'actor': {'loc1': ('loc1',), 'loc2': ('loc2',)},
                 'loc1': {'a1': a['topology']}}
+    if twin is not None:
+        # directly after the actor
+        items = []
+        for k, v in processes.items():
+            items.append((k, v))
+            if k == 'actor':
+                items.append(('twin', twin))
+        processes = dict(items)
+        topology['twin'] = {'loc1': ('loc1',)}
     if actor_below:
         # the actor sits in a compartment of its own; its ports reach the
         # stores it restructures through '..'
